@@ -2206,7 +2206,7 @@ func parseJSONLiteral(s string) (Node, error) {
 	switch v[0] {
 	case '"':
 		var s string
-		if err := json.Unmarshal([]byte(v), &s); err != nil {
+		if err := json.Unmarshal([]byte(v), &s); err == nil {
 			return &StringNode{
 				Value: s,
 			}, nil
